@@ -1025,7 +1025,7 @@ func ruleRelaySync(r *Run) {
 			r.CheckT("C6", u.fn.root().Name+":single-consumer", okFn, u.ev.Pos, u.path, "the send queue is drained only by the connection's sending loop (and its shutdown drain)")
 		}
 	}
-	r.Floor("C6", "sends into the send queue", nSend, 2)
+	r.Floor("C6", "sends into the send queue", nSend, 1) // send may delegate to sendMsg
 	r.Floor("C6", "receives from the send queue", nRecv, 1) // the sending loop's receive (its shutdown drain may live in a helper)
 	// sendMsg: exactly one blocking send of the message handed in; send: encode, then the same
 	for _, q := range []struct {
@@ -1076,28 +1076,52 @@ func ruleRelaySync(r *Run) {
 		}
 		r.Check("C6", fn.Name+":delivers", delivered >= 1, fn.Body.Pos(), "%s has a delivering path", q.name)
 	}
-	// responseSender forwards to the two functions exactly once
-	for _, q := range []struct{ name, field string }{{"websocket.responseSender.Send", "send"}, {"websocket.responseSender.SendMsg", "sendMsg"}} {
+	// responseSender forwards each message exactly once to the connection's own send / sendMsg — through
+	// stored method values or through a reference to the handler; the callee is resolved by the call graph
+	d := r.Deep()
+	for _, q := range []struct{ name, target string }{{"websocket.responseSender.Send", "websocket.(*handler).send"}, {"websocket.responseSender.SendMsg", "websocket.(*handler).sendMsg"}} {
 		fn := r.modelFunc(q.name)
 		if fn == nil {
 			continue
 		}
-		fld := r.P.LookupField(pkgWS, "responseSender", q.field)
 		for _, path := range r.Paths(fn) {
 			r.at(&path)
 			calls := 0
 			argOK := false
 			for _, ev := range path.Events {
-				if ev.Kind == EvCall && ev.Callee == fld {
+				if ev.Kind != EvCall || ev.Call == nil || ev.Depth != 0 {
+					continue
+				}
+				var names []string
+				if f, ok := ev.Callee.(*types.Func); ok {
+					names = append(names, funcName(f))
+				} else if d != nil {
+					known, _ := d.Callees(r.P, ev.Call)
+					for _, g := range known {
+						names = append(names, g.Name)
+					}
+				}
+				if len(names) == 0 {
+					continue
+				}
+				all := true
+				for _, nm := range names {
+					if nm != q.target {
+						all = false
+					}
+				}
+				if all {
 					calls++
 					argOK = len(ev.Call.Args) == 1 && r.P.Canon(ev.Fn, ev.Call.Args[0]) == "param:#0"
+				} else {
+					calls += 100 // forwards somewhere else as well
 				}
 			}
-			r.CheckT("C6", fn.Name+":forwards", calls == 1 && argOK, fn.Body.Pos(), &path, "the responder forwards each message exactly once")
+			r.CheckT("C6", fn.Name+":forwards", calls == 1 && argOK, fn.Body.Pos(), &path, "the responder forwards each message exactly once to the connection's %s", q.target)
 		}
 		r.Analysed(fn, 1)
 	}
-	// the responder handed to handlers is built from the handler's own send/sendMsg
+	// the responder handed to handlers is built from the handler's own send/sendMsg (or the handler itself)
 	if h := r.modelFunc("websocket.(*handler).Handle"); h != nil {
 		found := false
 		ast.Inspect(h.Body, func(n ast.Node) bool {
@@ -1108,8 +1132,18 @@ func ruleRelaySync(r *Run) {
 			if _, tn := litTypeName(h.Info(), cl); tn != "responseSender" {
 				return true
 			}
-			s1, s2 := litField(cl, "send"), litField(cl, "sendMsg")
-			found = s1 != nil && s2 != nil && r.P.Canon(h, s1) == "recv.method:send" && r.P.Canon(h, s2) == "recv.method:sendMsg"
+			ok2 := len(cl.Elts) > 0
+			for _, el := range cl.Elts {
+				v := el
+				if kv, isKV := el.(*ast.KeyValueExpr); isKV {
+					v = kv.Value
+				}
+				c := r.P.Canon(h, v)
+				if c != "recv" && c != "recv.method:send" && c != "recv.method:sendMsg" {
+					ok2 = false
+				}
+			}
+			found = ok2
 			return true
 		})
 		r.Check("C6", h.Name+":responder", found, h.Body.Pos(), "the responder given to handlers and stored in participants queues into this connection's own send queue")
